@@ -206,6 +206,18 @@ func Refs(v any, out *[]string) {
 					*out = append(*out, s)
 				}
 			}
+			// a discriminator's mapping values are references too (OpenAPI 3.1, Discriminator Object)
+			if k == "discriminator" {
+				if d, ok := e.(map[string]any); ok {
+					if mp, ok := d["mapping"].(map[string]any); ok {
+						for _, mv := range mp {
+							if s, ok := mv.(string); ok && strings.HasPrefix(s, "#/") {
+								*out = append(*out, s)
+							}
+						}
+					}
+				}
+			}
 			Refs(e, out)
 		}
 	case []any:
